@@ -91,8 +91,72 @@ def judge(chk: Check, wd, recs, meta, tag="c12", mode="C12"):
     return v
 
 
+def system_part(chk: Check, wd, tier: str, seed: int):
+    """the composed specification N2KSystem: model-checked for a generated script, its behaviours replayed into real
+    clients (TLC chooses the reads), the runs validated by TLC (Trace_System)"""
+    from .. import systemrun as sr
+    from ..tlc import simulate
+    rng = random.Random(seed + 5)
+    script = sr.make_script(rng, {"quick": 7, "thorough": 9, "selftest": 6}[tier])
+    sfile = wd / "script.json"
+    sfile.write_text(json.dumps(script))
+    states = runs = 0
+    for fmt in ("ebyte", "usb"):
+        # the bytes the specification renders for the script
+        empty, out0 = wd / f"sys-empty-{fmt}.json", wd / f"sys-stream-{fmt}.json"
+        empty.write_text("[]")
+        _, v0 = run_trace_tlc("Trace_System", f"Trace_System_{fmt}_NoFilter.cfg", empty, out0, name=f"Trace_System-{fmt}-stream",
+                              extra_env={"SCRIPT_FILE": str(sfile)})
+        stream = bytes(v0["stream"])
+        chk.gate(len(stream) >= 60, f"the rendered stream has only {len(stream)} bytes")
+        for cfgname in sr.CFGS:
+            cfg = f"MC_System_{fmt}_{cfgname}.cfg"
+            if tier != "selftest":
+                r = run_tlc("MC_System", cfg, name=f"MC_System-{fmt}-{cfgname}", env={"SCRIPT_FILE": str(sfile)}, timeout=3000, heap="3g")
+                for inv in r.violated:
+                    chk.violation(f"spec/system/{inv}", f"TLC: {inv} violated in MC_System ({cfg})", {"tlc": r.error_text(60)})
+                chk.gate(r.distinct > 500, f"MC_System explored only {r.distinct} states ({cfg})")
+                states += r.distinct
+            behs = simulate("MC_System", cfg, num={"quick": 24, "thorough": 160, "selftest": 8}[tier], depth=60, seed=seed + 11,
+                            env={"SCRIPT_FILE": str(sfile)}, name=f"MC_System-{fmt}-{cfgname}", only={"ev"})
+            recs, meta = [], []
+            for b, beh in enumerate(behs):
+                reads = [st["ev"]["n"] for _, st in beh[1:] if st["ev"]["k"] == "read"]
+                left = len(stream) - sum(reads)
+                if left > 0:
+                    reads.append(left)              # the rest of the bytes in one last read
+                chunks, pos = [], 0
+                for n in reads:
+                    chunks.append(stream[pos:pos + n])
+                    pos += n
+                cb = ("ok", lambda i: "raise" if i % 2 else "ok", "slow")[b % 3]
+                o = sr.run(fmt, cfgname, chunks, recv_cb=cb, gap=3.0 if cb == "slow" else 2.0)
+                recs.append({"reads": reads, "after": o["after"], "msgs": o["msgs"]})
+                meta.append((fmt, cfgname, ("ok", "raise-odd", "slow")[b % 3], reads[:10]))
+            inp, outp = wd / f"sys-{fmt}-{cfgname}.json", wd / f"sys-{fmt}-{cfgname}-out.json"
+            inp.write_text(json.dumps(recs))
+            _, v = run_trace_tlc("Trace_System", f"Trace_System_{fmt}_{cfgname}.cfg", inp, outp, name=f"Trace_System-{fmt}-{cfgname}",
+                                 extra_env={"SCRIPT_FILE": str(sfile)}, heap="3g")
+            chk.gate(v["n"] == len(recs), "Trace_System did not judge every run")
+            for bad in v["bad"]:
+                fmt_, cfg_, cb, reads = meta[bad["k"] - 1]
+                c = bad["v"]["c"]
+                if c.startswith("MACHINERY"):
+                    chk.gate(False, f"system replay: {c}")
+                r_ = recs[bad["k"] - 1]
+                chk.violation(f"{c}/{sr.KIND[fmt_]}/callback={cb}",
+                              f"{sr.KIND[fmt_]} client, decoder configuration {cfg_}, callback {cb}, reads {reads}..: {c} at read "
+                              f"{bad['v']['k']}; delivered so far {r_['after']}, messages {[(m['pgn'], m['src']) for m in r_['msgs']]}",
+                              {"format": fmt_, "configuration": cfg_, "callback": cb, "reads": r_["reads"], "after": r_["after"],
+                               "messages": r_["msgs"], "script": script})
+            runs += len(recs)
+    chk.add(system_states=states, system_runs_replayed=runs, system_script_items=len(script))
+    chk.gate(runs >= (20 if tier == "selftest" else 100), f"only {runs} system behaviours were replayed")
+
+
 def bind(chk: Check, tier: str, seed: int):
     wd = workdir("C12")
+    system_part(chk, wd, tier, seed)
     recs, meta = sessions(tier, seed)
     judge(chk, wd, recs, meta)
     per = {}
